@@ -3,12 +3,15 @@ package c20
 import (
 	"fmt"
 	"math"
+	"runtime"
 	"sort"
+	"sync/atomic"
 	"testing"
 	"time"
 
 	"github.com/dtn7/dtn7-go/pkg/bpv7"
 	"github.com/dtn7/dtn7-go/pkg/routing"
+	"github.com/dtn7/dtn7-go/pkg/verifhook"
 
 	"verifh/internal/bubble"
 	"verifh/internal/model"
@@ -374,6 +377,35 @@ func graphCase(r *report.Run, states []int, extra []update, label string) error 
 		// later instant: lost links have aged, the table follows
 		sc.sleepTo(41 * time.Second)
 		sc.checkTable(dests)
+		// the known graph shrinks: newer link-state data of a and b no longer lists d (and, every other case, a no longer
+		// lists anybody); destinations that lose their last path must leave the table at the next recomputation
+		shrink := func(u update, drop ...string) update {
+			n := update{node: u.node, ts: bubble.NowMs(), links: map[string]uint64{}}
+			for p, t := range u.links {
+				n.links[p] = t
+			}
+			for _, p := range drop {
+				delete(n.links, p)
+			}
+			return n
+		}
+		code := 0
+		for _, st := range states {
+			code = code*4 + st
+		}
+		if code%2 == 0 {
+			sc.feed(shrink(ua, "d"))
+		} else {
+			sc.feed(shrink(ua, "d", "b", "c"))
+		}
+		sc.feed(shrink(ub, "d"))
+		before := len(sc.d.VerifTable())
+		sc.sleepTo(45 * time.Second) // recompute job at +44 s
+		sc.checkData()
+		sc.checkTable(dests)
+		if after := len(sc.d.VerifTable()); after < before {
+			r.Count("table.entries_removed_after_graph_shrank", before-after)
+		}
 		if !sc.viol {
 			r.Nontrivial(label, fmt.Sprint(states), len(extra))
 			r.Count("graphs."+label, 1)
@@ -429,6 +461,45 @@ func broadcastCase(r *report.Run, k int, failFirst bool) error {
 			n := fmt.Sprintf("p%d", i)
 			names = append(names, n)
 			s.PeerUp(n)
+		}
+		var gate chan struct{}
+		var arrived, forced int32
+		if failFirst {
+			// every transmission of the first broadcast is parked and then fails at the same moment; the failure reports
+			// are brought together between reading and writing back the list of served peers (hook): a lock held
+			// across that read-modify-write keeps the partner out and nothing is forced
+			gate = make(chan struct{})
+			for _, n := range names {
+				p := s.Peer(n)
+				p.Gate = gate
+				p.Fail()
+			}
+			verifhook.Set("routing.dtlsr.reportfailure.rmw", func() {
+				if atomic.AddInt32(&arrived, 1) == 1 {
+					for spin := 0; spin < 200000 && atomic.LoadInt32(&arrived) < 2; spin++ {
+						runtime.Gosched()
+					}
+					if atomic.LoadInt32(&arrived) >= 2 {
+						atomic.StoreInt32(&forced, 1)
+					}
+				}
+			})
+			defer verifhook.Set("routing.dtlsr.reportfailure.rmw", nil)
+			time.Sleep(8 * time.Second) // broadcast job at +7 s; all sends are parked now
+			s.Wait()
+			close(gate)
+			s.Wait()
+			for _, n := range names {
+				p := s.Peer(n)
+				p.Gate = nil
+				p.OK()
+			}
+			if atomic.LoadInt32(&forced) == 1 {
+				r.Count("broadcast.failure_reports_interleaved_at_hook", 1)
+			} else {
+				r.Count("broadcast.failure_reports_serialised_by_lock", 1)
+			}
+			r.Count("broadcast.simultaneous_failures", int(atomic.LoadInt32(&arrived)))
 		}
 		s.Tick(8 * time.Second) // broadcast job at +7 s
 		s.Tick(11 * time.Second)
@@ -522,6 +593,9 @@ func TestCheck(t *testing.T) {
 
 	r.Group("broadcast", 12, func(i int, rng *report.Rand) {
 		fail(broadcastCase(r, 1+i%6, false), i)
+	})
+	r.Group("broadcast-failures", 15, func(i int, rng *report.Rand) {
+		fail(broadcastCase(r, 2+i%5, true), i)
 	})
 }
 
